@@ -8,6 +8,7 @@ from mirsmt.values import Cell, Lazy, Adt, Ref, Obj, UNIT, bv
 from mirsmt.interp import Inconclusive, PathEnd
 
 
+@common.part
 def filters(chk, prop):
     """Repeat::skipped / Repeat::failed filter closures accept exactly the event shapes of the statement."""
     ix = events.CukeIdx(chk.prog)
@@ -121,6 +122,7 @@ def confirm_filter(chk, o, prop, which, ix):
         o.detail += ' | native replay DISAGREES: inner events %s' % n
 
 
+@common.part
 def delivery(chk, prop):
     """handle_event: pass-through in order; after run-Finished the buffered items are re-emitted once, in order,
     and the buffer is emptied; an item is buffered iff the filter accepts it."""
